@@ -14,7 +14,7 @@ structure Indent where
   needsBlockEnd : Bool
 deriving Repr
 
-inductive ImplState | possible | inside
+inductive ImplState | possible | inside | explicitMapping
 deriving Repr, DecidableEq
 
 inductive Chomping | strip | clip | keep
